@@ -963,6 +963,11 @@ impl<'t, 'b> G<'t, 'b> {
                         let name = self.fresh_name("optn");
                         let node = Stmt::Node { id: self.id(), var: VarRef::Scoped { id: self.id(), scope, name } };
                         self.features.insert("node-on-optional-capture");
+                        // risky: without the guard - fails whenever the capture is absent
+                        if self.risky() {
+                            self.features.insert("unguarded-definition-on-optional-capture");
+                            return Some(node);
+                        }
                         return Some(Stmt::If { id: self.id(), arms: vec![IfArm { id: self.id(), conds: vec![Cond::Some(self.id(), test)], body: vec![node] }] });
                     }
                 }
@@ -1211,7 +1216,12 @@ impl<'t, 'b> G<'t, 'b> {
         }
         // set of an existing mutable scoped variable (strict-only programs)
         if !self.cfg.fragment && !node_stmt && self.t.chance(1, 6) {
-            let muts: Vec<ScopedInfo> = self.scoped.iter().filter(|s| s.mutable).cloned().collect();
+            // risky: also a variable that is not mutable (a `let` or `node` one): the run fails
+            let any = self.risky();
+            if any {
+                self.features.insert("set-on-immutable-scoped-variable");
+            }
+            let muts: Vec<ScopedInfo> = self.scoped.iter().filter(|s| s.mutable || any).cloned().collect();
             let reads: Vec<Expr> = muts.iter().flat_map(|s| self.scoped_reads(&s.ty).into_iter().filter(|e| matches!(e, Expr::Scoped { name, .. } if name == &s.name)).collect::<Vec<_>>()).collect();
             if !reads.is_empty() {
                 let e = reads[self.t.choose(reads.len())].clone();
@@ -1592,6 +1602,26 @@ impl<'t, 'b> G<'t, 'b> {
                     Stmt::AttrNode { id, node: target, attrs: vec![Attr { name: sh, value: Some(Expr::Int(1, 0)) }] }
                 }
             }
+            // the failing value is bound to a local, passed on through two more locals and used in
+            // an attribute: the statement that fails is the first `let`
+            "type-through-aliases" => {
+                let (f1, f2, f3) = (self.fresh_name("flt"), self.fresh_name("flt"), self.fresh_name("flt"));
+                let bad = Stmt::Let { id: self.id(), var: VarRef::Plain { id: self.id(), name: f1.clone() }, value: Expr::Call { func: "plus".into(), args: vec![Expr::Str("a".into()), Expr::Int(1, 0)] } };
+                self.fault_pair = Some((bad.id(), bad.id()));
+                let a1 = Stmt::Let { id: self.id(), var: VarRef::Plain { id: self.id(), name: f2.clone() }, value: Expr::Var { id: self.id(), name: f1 } };
+                let a2 = Stmt::Let { id: self.id(), var: VarRef::Plain { id: self.id(), name: f3.clone() }, value: Expr::List(vec![Expr::Var { id: self.id(), name: f2 }]) };
+                let use_it = Stmt::AttrNode { id: self.id(), node: target, attrs: vec![Attr { name: "f".into(), value: Some(Expr::Var { id: self.id(), name: f3 }) }] };
+                Stmt::If { id, arms: vec![IfArm { id: self.id(), conds: vec![Cond::Bool(self.id(), Expr::True)], body: vec![bad, a1, a2, use_it] }] }
+            }
+            // a scoped variable defined on a local that holds #null instead of a syntax node
+            "scope-is-null" => {
+                let l = self.fresh_name("flt");
+                let holder = Stmt::Let { id: self.id(), var: VarRef::Plain { id: self.id(), name: l.clone() }, value: Expr::Null };
+                let scope = Expr::Var { id: self.id(), name: l };
+                let name = self.fresh_name("onnull");
+                let def = if self.t.chance(1, 2) { Stmt::Let { id: self.id(), var: VarRef::Scoped { id: self.id(), scope, name }, value: Expr::Int(1, 0) } } else { Stmt::Node { id: self.id(), var: VarRef::Scoped { id: self.id(), scope, name } } };
+                Stmt::If { id, arms: vec![IfArm { id: self.id(), conds: vec![Cond::Bool(self.id(), Expr::True)], body: vec![holder, def] }] }
+            }
             // the failing value sits in a print argument: lazy evaluation reaches it last
             "type-in-print" => Stmt::Print { id, values: vec![Expr::Str("p".into()), Expr::Call { func: "plus".into(), args: vec![Expr::Str("a".into()), Expr::Int(1, 0)] }] },
             "overflow" => Stmt::Let { id, var: VarRef::Plain { id: self.id(), name: self.fresh_name("flt") }, value: Expr::Call { func: "plus".into(), args: vec![Expr::Int(4294967295, 0), Expr::Int(1, 0)] } },
@@ -1696,6 +1726,8 @@ pub const FAULTS: &[&str] = &[
     "shorthand-free-variable",
     "edge-attr-conflict",
     "type-in-print",
+    "type-through-aliases",
+    "scope-is-null",
 ];
 
 // ------------------------------------------------------------------------------------------------
